@@ -81,11 +81,90 @@ C20MutateReason(e, s) ==
   ELSE ""
 
 -----------------------------------------------------------------------------
+(* C02: decoding any byte string. Outcomes are ok / err / panic; panic is an *)
+(* outcome no action of the specification allows. Accept/reject of          *)
+(* malformed input is the implementation's choice (not judged).             *)
+ExtsAreInputBytes(b, o) ==
+  IF ~o.x THEN o.exts = <<>>
+  ELSE LET extStart == 12 + 4 * Len(o.csrc) + 4 IN
+       IF o.profile \in {OneByte, TwoByte}
+       THEN o.exts = LooseWalk(b, extStart, Len(b), o.profile, <<>>, Len(o.exts))
+       ELSE /\ Len(o.exts) = 1 /\ o.exts[1].id = 0
+            /\ extStart + Len(o.exts[1].val) <= Len(b)
+            /\ o.exts[1].val = Sub(b, extStart, extStart + Len(o.exts[1].val))
+AnyPanic(e) == "panic" \in {e.fresh.res, e.used.res, e.hfresh.res, e.hused.res}
+C02Reason(e) ==
+  LET b == e.bytes  f == e.fresh  hf == e.hfresh IN
+  IF AnyPanic(e) THEN "panic"
+  ELSE IF hf.res = "ok" /\ ~(hf.n \in 0..Len(b)) THEN "header_length_outside_input"
+  ELSE IF hf.res = "ok" /\ ~ExtsAreInputBytes(b, hf.obs) THEN "header_ext_value_not_input_bytes"
+  ELSE IF f.res = "ok" /\ hf.res # "ok" THEN "packet_ok_header_err"
+  ELSE IF f.res = "ok" /\ hf.n + Len(f.obs.payload) + f.obs.padsize # Len(b) THEN "length_equation"
+  ELSE IF f.res = "ok" /\ f.obs.payload # Sub(b, hf.n, hf.n + Len(f.obs.payload)) THEN "payload_not_input_bytes"
+  ELSE IF f.res = "ok" /\ ~ExtsAreInputBytes(b, f.obs) THEN "ext_value_not_input_bytes"
+  ELSE IF e.used.res # f.res THEN "reuse_outcome_differs"
+  ELSE IF f.res = "ok" /\ e.used.obs # f.obs THEN "reuse_field_" \o FirstDiff(e.used.obs, f.obs, PacketFields, 1)
+  ELSE IF e.hused.res # hf.res THEN "header_reuse_outcome_differs"
+  ELSE IF hf.res = "ok" /\ e.hused.n # hf.n THEN "header_reuse_length_differs"
+  ELSE IF hf.res = "ok" /\ e.hused.obs # hf.obs THEN "header_reuse_field_" \o FirstDiff(e.hused.obs, hf.obs, HeaderFields, 1)
+  ELSE ""
+
+-----------------------------------------------------------------------------
+(* C03 (a): an RFC-legal image decodes to the value it was built from.      *)
+(* C03 (b): whatever was accepted re-encodes stably.                        *)
+ReencodeReason(e) ==
+  LET b == e.bytes  f == e.fresh  rm == e.remarshal  rd == e.redecode IN
+  IF f.res # "ok" THEN ""
+  ELSE IF rm.res = "panic" THEN "remarshal_panic"
+  ELSE IF rm.res = "err" THEN
+         (IF rm.errkind = "invalid_padding" /\ f.obs.pad /\ f.obs.padsize = 0 THEN "" ELSE "marshal_refuses_accepted_packet")
+  ELSE IF rd.res # "ok" THEN "reencoded_bytes_rejected"
+  ELSE IF rd.obs # f.obs THEN "reencode_field_" \o FirstDiff(rd.obs, f.obs, PacketFields, 1)
+  ELSE LET r == Parse(b) IN
+       IF r.ok /\ Canon(r.p) = b /\ rm.bytes # b THEN "canonical_input_not_reproduced" ELSE ""
+C03ImageReason(e) ==
+  LET f == e.fresh  hf == e.hfresh IN
+  IF ~(LET r == Parse(e.bytes) IN r.ok /\ r.p = e.want /\ r.n = e.wantn) THEN "oracle_disagrees_with_case"
+  ELSE IF AnyPanic(e) THEN "panic"
+  ELSE IF f.res # "ok" THEN "wellformed_image_rejected"
+  ELSE IF f.obs # e.want THEN "decoded_field_" \o FirstDiff(f.obs, e.want, PacketFields, 1)
+  ELSE IF hf.res # "ok" THEN "wellformed_image_rejected_by_header"
+  ELSE IF hf.n # e.wantn THEN "payload_offset"
+  ELSE IF hf.obs # Hdr(e.want) THEN "header_decoded_field_" \o FirstDiff(hf.obs, Hdr(e.want), HeaderFields, 1)
+  ELSE ReencodeReason(e)
+C03BytesReason(e) == IF AnyPanic(e) THEN "panic" ELSE ReencodeReason(e)
+
+(* C03 (c): standalone views of a well-formed block *)
+Ids(exts) == [i \in 1..Len(exts) |-> exts[i].id]
+Vals(exts) == [i \in 1..Len(exts) |-> exts[i].val]
+ViewApplies(e) ==
+  \/ e.view = "onebyte" /\ e.profile = OneByte
+  \/ e.view = "twobyte" /\ e.profile = TwoByte
+  \/ e.view = "raw" /\ e.profile \notin {OneByte, TwoByte}
+C03ViewReason(e) ==
+  LET blk == e.block IN
+  IF e.res = "panic" THEN "view_panic"
+  ELSE IF ~ViewApplies(e) THEN ""
+  ELSE IF e.res # "ok" THEN "view_rejects_wellformed_block"
+  ELSE IF e.n # Len(blk) THEN "view_consumed_length"
+  ELSE IF e.view = "raw" THEN
+         (IF e.ids # <<0>> THEN "view_ids"
+          ELSE IF ~(e.vals[1] = blk \/ e.vals[1] = Drop(blk, 4)) THEN "view_values"
+          ELSE IF e.marshal # blk \/ e.size # Len(blk) \/ e.mton # Len(blk) \/ Take(e.mto, Len(blk)) # blk THEN "view_reserialise" ELSE "")
+  ELSE IF e.ids # Ids(e.want) THEN "view_ids"
+  ELSE IF e.vals # Vals(e.want) THEN "view_values"
+  ELSE IF e.marshal # blk \/ e.size # Len(blk) \/ e.mton # Len(blk) \/ Take(e.mto, Len(blk)) # blk THEN "view_reserialise"
+  ELSE ""
+
+-----------------------------------------------------------------------------
 Reason(e, s) ==
   CASE e.ev = "skip" -> ""
     [] e.ev = "roundtrip" -> C01Reason(e)
     [] e.ev = "marshal" -> C04MarshalReason(e)
     [] e.ev = "marshalto" -> C04ToReason(e, s)
+    [] e.ev = "decode" -> IF Prop = "C02" THEN C02Reason(e)
+                          ELSE IF e.kind = "image" THEN C03ImageReason(e) ELSE C03BytesReason(e)
+    [] e.ev = "view" -> C03ViewReason(e)
     [] e.ev = "clone" -> C20CloneReason(e)
     [] e.ev = "mutate" -> C20MutateReason(e, s)
     [] OTHER -> "unknown_event"
